@@ -37,7 +37,7 @@ def run(ctx):
                 "values each: 0, 1, max, boundary years 57/99/00/56, both signs, exponents -9..+1, blank/full designator, "
                 "element numbers up to 9999); distinct/non-trivial = distinct sets of fields changed; plus every multi-TLE "
                 "text of <= MaxLen lines from 9 line kinds")
-    corner = CORNER if thorough else {k: set(sorted(v)[:3]) | ({max(v)} if k in ("elnb", "mm", "rev", "norad") else set()) for k, v in CORNER.items()}
+    corner = CORNER if thorough else {k: set(sorted(v)[:3]) | ({max(v)} if k in ("elnb", "mm", "rev", "norad", "bsexp", "nddexp") else set()) for k, v in CORNER.items()}
     name, mc, cl = tlcmod.wrap("Tle", {"Base": rec(BASE), "Corner": fn(corner)})
     cfg = "INIT Init\nNEXT Next\n" + cl + "INVARIANT RoundTrip\nINVARIANT WellFormed\nINVARIANT CorruptionDetected\nCHECK_DEADLOCK FALSE\n"
     r = ctx.tlc(name, label="Tle field pairs", cfg_text=cfg, extra_files={name + ".tla": mc}, workers=16, dump=True, timeout=2400)
